@@ -21,7 +21,7 @@
 EXTENDS CarBase, Json
 
 CONSTANTS
-  OptSet,      \* set of option records [whole, dup, ident, v1, maxcid, dpad, ipad, codec]
+  OptSet,      \* set of option records [whole, dup, ident, v1, maxcid, maxsec, dpad, ipad, codec]
   RootSets,    \* set of root lists (sequences of block ids)
   PutIds,      \* block ids offered to Put
   ManyArgs,    \* set of block-id sequences offered to PutMany
